@@ -13,6 +13,9 @@ Monitors
   lift.by-sequence    X.lift_over_to_sequence(S_j) == composed list on level j, result parent holds S_j
   lift.child-to-parent  X.parent.lift_child_location_to_parent() == one composition step
   lift.sequence       str(lifted.extract_sequence()) == str(X.extract_sequence()) == model string ('seq' hierarchies)
+  lift.ancestor-search  first_ancestor_of_type(t) is the Parent of the closest level of type t, has_ancestor_of_type /
+                      has_ancestor_sequence are true exactly for the ancestors (documented 'closest ancestor' search the
+                      lifts rely on)
   lift.refusal        absent type / type of a descendant only / foreign or descendant sequence / location without parent
                       -> NoSuchAncestorException; location with a gap to lift_over_to_sequence -> ValueError; root level
                       asked for its grandparent -> refused; never a Location
@@ -44,6 +47,12 @@ Latitude (what the property text leaves open; everything else is compared exactl
     docstring of the called function names it (NoSuchAncestorException, ValueError, EmptyLocation);
   * adjacent blocks may be merged or kept (optimize_blocks=False in the chunk lift): position lists, never block lists,
     are compared.
+
+Finding on the unchanged tree (classify() -> F14-lift-child-with-two-leading-empty-blocks, patch proposed in
+proposed_fixes/C04-lift-leading-empty-blocks.diff): a child location that has bases but whose first two blocks are
+zero-length is refused with EmptyLocationException by Parent.lift_child_location_to_parent (the pairwise fold of the
+lifted blocks collapses empty + empty to EmptyLocation, which cannot be unioned); the same location with the empty
+blocks elsewhere, or with one empty block, lifts correctly.
 """
 import itertools
 from collections import Counter
@@ -79,7 +88,7 @@ EXHAUSTIVE_SCOPE = {t: (f"depth 1: root {s['G1']}, <= {s['K1']} blocks, children
                         f"chunks: all windows over {s['GC']} bases x locations <= {s['KC']} blocks; all windows over {s['NG']} random genome(s) of {s['GR']} bases")
                     for t, s in SCOPE.items()}
 FLOOR = {"quick": 20000, "thorough": 100000}
-REQUIRED_MONITORS = ["lift.by-type", "lift.by-sequence", "lift.child-to-parent", "lift.sequence", "lift.refusal", "lift.wellformed",
+REQUIRED_MONITORS = ["lift.by-type", "lift.by-sequence", "lift.child-to-parent", "lift.sequence", "lift.ancestor-search", "lift.refusal", "lift.wellformed",
                      "chunk.lift", "chunk.sequence", "chunk.back", "chunk.rechunk", "chunk.whole", "chunk.refusal"]
 REACH = [
     # (location_impl first: importing inscripta.biocantor.parent.parent before the location package is circular)
@@ -402,6 +411,10 @@ def check_child(ctx, H, O, case, d, xb, xs, refusals=True):
     # ---- by type: every type that occurs among the ancestors, closest wins
     for t in sorted({t for t in types[: d + 1] if t is not None}):
         j = max(k for k in range(d + 1) if types[k] == t)
+        a, e = ctx.call(X.first_ancestor_of_type, t)
+        h, e2 = ctx.call(X.has_ancestor_of_type, t)
+        ctx.check("lift.ancestor-search", e is None and e2 is None and h is True and getattr(a, "id", None) == f"L{j}" and a.sequence_type == t,
+                  key=("closest-of-type", f"up{d - j}", O.mode), type=t, target=j, got=repr(a)[:300], has=h, exc=repr(e or e2)[:200] if (e or e2) else None, **det)
         wantP, wants = H.lift(PX, xs, d, j)
         r, e = ctx.call(X.lift_over_to_first_ancestor_of_type, t)
         tag = (f"up{d - j}", O.mode, "overlapping" if ov else "plain")
@@ -455,6 +468,10 @@ def check_child(ctx, H, O, case, d, xb, xs, refusals=True):
     # ---- refusals
     absent = ["no-such-type"] + sorted({t for t in types[d + 1:] if t is not None and t not in types[: d + 1]})
     for t in absent:
+        a, e = ctx.call(X.first_ancestor_of_type, t)
+        h, e2 = ctx.call(X.has_ancestor_of_type, t)
+        ctx.check("lift.ancestor-search", isinstance(e, NoSuchAncestorException) and e2 is None and h is False, key=("absent-type", O.mode), type=t,
+                  got=repr(a)[:200], has=h, exc=repr(e)[:200], **det)
         r, e = ctx.call(X.lift_over_to_first_ancestor_of_type, t)
         ctx.check("lift.refusal", isinstance(e, NoSuchAncestorException), key=("absent-type", "descendant" if t != "no-such-type" else "unknown", O.mode),
                   type=t, got=repr(r)[:200], exc=repr(e)[:200], **det)
@@ -464,7 +481,12 @@ def check_child(ctx, H, O, case, d, xb, xs, refusals=True):
                    ("unrelated", Sequence("ACGTAC", O.alphabet, id="L0", type=types[0]))]
         if d < H.depth:
             foreign.append(("descendant", O.seqs[d + 1]))
+        for j in range(d + 1):
+            h, e = ctx.call(X.has_ancestor_sequence, O.seqs[j])
+            ctx.check("lift.ancestor-search", e is None and h is True, key=("ancestor-sequence", f"up{d - j}"), target=j, has=h, exc=repr(e)[:200] if e else None, **det)
         for name, s in foreign:
+            h, e = ctx.call(X.has_ancestor_sequence, s)
+            ctx.check("lift.ancestor-search", e is None and h is False, key=("absent-sequence", name), has=h, exc=repr(e)[:200] if e else None, **det)
             r, e = ctx.call(X.lift_over_to_sequence, s)
             ok = isinstance(e, NoSuchAncestorException) or (gap and isinstance(e, ValueError))
             ctx.check("lift.refusal", ok, key=("absent-sequence", name), got=repr(r)[:200], exc=repr(e)[:200], **det)
